@@ -186,7 +186,10 @@ def verify_unit(unit, canary=True, extra=()):
             resource.append(d.get("rendered") or d.get("message"))
             continue
         spans = d.get("spans", [])
-        prim = [s for s in spans if s.get("is_primary")] or spans
+        # the clause that failed (postcondition / invariant) is what names the obligation; for preconditions and
+        # body checks it is the primary span (the call site / operation), never the callee's requires clause
+        clause = [s for s in spans if (s.get("label") or "").startswith("failed this ")]
+        prim = clause or [s for s in spans if s.get("is_primary")] or spans
         label = None
         fnname = None
         for s in prim:
